@@ -14,6 +14,26 @@ CHECKS = {
          "Every range/gcd/parity/compositeness guard and every verification equation the property names is shown to dominate each accepting return of its verifier with a reject set at least as large as required, on all paths of the current source; Paillier domain guards dominate every non-error return; security constants are read from the type checker. A missing, weakened, misplaced or wrong-operand guard is reported with its verifier and guard name.",
          "§4.11",
          "Not decided: soundness itself (that the inventory suffices to reject every false statement) and collision resistance of the hash. The inventory is the protocol specification's (GG18 / CGGMP figures)."),
+ "C12": ("Fiat-Shamir completeness by data-dependence over go/ssa (commitment classification, hash-input reachability through helpers), tag provenance, session-context index classes",
+         "For each of the nine proof systems: every first-move commitment of the prover (a returned proof field not data-dependent on the challenge) flows into the challenge hash; the verifier's hash receives every commitment and every statement parameter (reasoned exemptions frozen per symbol); session parameters are exactly the tag of the tagged hash; every prover/verifier call in round code receives ssid||index with a role-consistent index class; no hash-input buffer is built with a truncating copy; the tagged hash writes H(tag) twice before the framed data.",
+         "§4.12",
+         "Not decided: collision resistance and the random-oracle argument; that shifting a commitment and its response together fails follows from R12.1/R12.2 only under that argument."),
+ "C13": ("must-pass-through gates + value identity on canonical terms + interprocedural big.Int ownership/mutation (effect) analysis",
+         "Every share-producing return of BobMid/BobMidWC/AliceEnd/AliceEndWC is dominated by the true edge of the matching proof verification on exactly the function's own parameters; the ciphertext decrypted is the ciphertext verified; the mask encrypted, proven, negated and returned is one value below q^5 and cB = b*cA + Enc(mask); no function of crypto/mta or crypto/paillier overwrites or returns a caller-owned big.Int (so 'verified value = used value' holds for objects, not only SSA names); round 2/3 call sites pass per-peer arguments with one peer index; with-check: X and U are hashed on both sides and the public-point equation guards every accepting path with X != nil.",
+         "§4.13",
+         "Not decided: alpha+beta = a*b mod q (Paillier arithmetic, no wrap-around) — numeric."),
+ "C14": ("ordering-set domain guards + symbolic normal forms of key generation and ciphertext + effect analysis",
+         "The seven Paillier domain guards dominate every non-error return with the required reject sets; the randomizer is a per-call unit sample from the rand parameter and the ciphertext has the symbolic form (N+1)^m x^N mod N^2; key generation uses two distinct safe primes of half length, leaves its loop only through the |P-Q| guard and returns N=PQ, phi=(P-1)(Q-1), lambda=phi/gcd; operations never overwrite or return their operands.",
+         "§4.14",
+         "Not decided: Dec(Enc(m))=m, homomorphic laws, exact bit length of N, primality."),
+ "C15": ("for-all loop facts and dominance over go/ssa; term shape of the duplicate-set key",
+         "CheckIndexes judges both the zero test and the duplicate key on id mod q for every id; Create's refusal guards and the nil-error edge of CheckIndexes dominate sampling, every evaluation and every commitment; shares are evaluated at the checked ids with one threshold/polynomial; Verify's arity guard dominates acceptance, its loop runs 1..threshold, the result is Equals(share*G, accumulated point) and a failed addition rejects.",
+         "§4.15",
+         "Not decided: shares lie on one polynomial, subset reconstruction (ReConstruct's algebra), rejection of every altered component."),
+ "C16": ("structural matching of the framing loops on go/ssa (append chains, value identity of the length operand), sibling agreement, layout of commit/open, inductive phi invariants for the parser bounds",
+         "The three hash functions frame their input as LE64(count) then, for every input in order without a skip edge, bytes | delimiter | LE64(len of those same bytes); the tagged variant prefixes H(tag) twice; commitments are H(r, secrets...) over exactly D with fresh 256-bit r, Verify recomputes and rejects on inequality, DeCommit returns D[1:] only after Verify; the parts builder emits len then part, and the parser's slice bounds are guarded (0 <= n <= MaxPartSize, hi <= len) as inductive invariants. Injectivity of that layout is a three-line paper argument in DESIGN §4.16.",
+         "§4.16",
+         "Not decided: collision resistance of SHA-512/256; sign-forgetting of Bytes() (inputs assumed non-negative)."),
 }
 
 NOT_BUILT_REASON = "check not yet built in this working session (planned: see DESIGN.md §4); not claimed until its rules run silent on the unchanged tree and fire on seeded defects"
